@@ -14,14 +14,17 @@ inductive Payload
   | plain        -- Send + Sync
   | notSync      -- `Cell<u32>`: Send, !Sync
   | notSend      -- `Rc<u32>`: !Send, !Sync
+  | syncNotSend  -- a struct owning a `MutexGuard<'static, u32>`: Sync, !Send
 deriving DecidableEq, Repr, Inhabited
 
 def Payload.send : Payload → Bool
   | .notSend => false
+  | .syncNotSend => false
   | _ => true
 
 def Payload.sync : Payload → Bool
   | .plain => true
+  | .syncNotSend => true
   | _ => false
 
 /-- Thread-crossing API uses. -/
@@ -31,6 +34,8 @@ inductive Cross
   | iterSend         -- move a query's result::Iter over `&P` into another thread
   | entriesSend      -- move a query's Entries (entry views `&P`) into another thread
   | entriesSync      -- share &Entries (entry views `&P`) with another thread
+  | iterSendMut      -- move a query's result::Iter over `&mut P` into another thread
+  | entriesSendMut   -- move a query's Entries (entry views `&mut P`) into another thread
   | parRef           -- par_query over `&P`
   | parMut           -- par_query over `&mut P`
   | schedViews       -- schedule task whose views are `&P`
@@ -59,6 +64,14 @@ def implHas (ty tr param bound : String) : Bool :=
 
 def implExists (ty tr : String) : Bool := sendSyncImpls.any (fun i => i.ty == ty && i.tr == tr)
 
+/-- The verdict of an `unsafe impl <tr> for <ty>` whose views parameter carries the payload behind
+`&P` (`mutView = false`) or `&mut P`: `&P: Send ⇔ P: Sync`, `&mut P: Send ⇔ P: Send`, and both are
+`Sync` iff `P: Sync`.  An impl without a bound on its views accepts everything. -/
+def viewsBound (ty tr : String) (mutView : Bool) (p : Payload) : Bool :=
+  if implHas ty tr "Views" "Send" then (if mutView then p.send else p.sync)
+  else if implHas ty tr "Views" "Sync" then p.sync
+  else implExists ty tr
+
 def sigTied (file : String) : Bool := (entryQuerySigs.lookup file).getD false
 
 /-- The verdict of the type system, as determined by the impls and signatures in the source. -/
@@ -77,9 +90,11 @@ def accepts : Prog → Bool
     match c with
     | .worldSend => if implHas "World" "Send" "Registry" "Send" then p.send else implExists "World" "Send"
     | .worldSync => if implHas "World" "Sync" "Registry" "Sync" then p.sync else implExists "World" "Sync"
-    | .iterSend => if implHas "Iter" "Send" "Views" "Send" then p.sync else implExists "Iter" "Send"
-    | .entriesSend => if implHas "Entries" "Send" "Views" "Send" then p.sync else implExists "Entries" "Send"
-    | .entriesSync => if implHas "Entries" "Sync" "Views" "Sync" then p.sync else implExists "Entries" "Sync"
+    | .iterSend => viewsBound "Iter" "Send" false p
+    | .entriesSend => viewsBound "Entries" "Send" false p
+    | .entriesSync => viewsBound "Entries" "Sync" false p
+    | .iterSendMut => viewsBound "Iter" "Send" true p
+    | .entriesSendMut => viewsBound "Entries" "Send" true p
     | .parRef => p.sync                -- `ParView for &C where C: Sync`
     | .parMut => p.send                -- `ParView for &mut C where C: Send`
     | .schedViews => p.sync            -- `Task: Views: Send`
@@ -103,13 +118,15 @@ def Sound : Prog → Bool
     match c with
     | .worldSend => p.send
     | .parMut => p.send
+    | .iterSendMut => p.send                            -- a `&mut P` reaches another thread
+    | .entriesSendMut => p.send
     | _ => p.sync                                       -- a `&P` reaches another thread
 
 def allVK : List VK := [.ref, .mut, .oref, .omut]
-def allPayload : List Payload := [.plain, .notSync, .notSend]
+def allPayload : List Payload := [.plain, .notSync, .notSend, .syncNotSend]
 def allCross : List Cross :=
-  [.worldSend, .worldSync, .iterSend, .entriesSend, .entriesSync, .parRef, .parMut, .schedViews,
-   .schedRes, .schedEntry, .schedParEntry]
+  [.worldSend, .worldSync, .iterSend, .entriesSend, .entriesSync, .iterSendMut, .entriesSendMut,
+   .parRef, .parMut, .schedViews, .schedRes, .schedEntry, .schedParEntry]
 
 /-- The whole program family (every pair of view kinds in every position, every thread-crossing
 API with every payload), each conflicting program next to its conflict-free twin. -/
@@ -130,11 +147,12 @@ def _root_.Brood.Static.VK.tok : VK → String
   | .ref => "r" | .mut => "m" | .oref => "or" | .omut => "om" | .ident => "id"
 
 def Payload.tok : Payload → String
-  | .plain => "plain" | .notSync => "notsync" | .notSend => "notsend"
+  | .plain => "plain" | .notSync => "notsync" | .notSend => "notsend" | .syncNotSend => "syncnotsend"
 
 def Cross.tok : Cross → String
   | .worldSend => "world_send" | .worldSync => "world_sync" | .iterSend => "iter_send"
-  | .entriesSend => "entries_send" | .entriesSync => "entries_sync" | .parRef => "par_ref"
+  | .entriesSend => "entries_send" | .entriesSync => "entries_sync"
+  | .iterSendMut => "iter_send_mut" | .entriesSendMut => "entries_send_mut" | .parRef => "par_ref"
   | .parMut => "par_mut" | .schedViews => "sched_views" | .schedRes => "sched_res"
   | .schedEntry => "sched_entry" | .schedParEntry => "sched_par_entry"
 
